@@ -9,7 +9,10 @@ from .common import BaseProp
 from .c06 import tail_kind
 
 
-def build(ps, f):
+def build(ps, f, as_int=False):
+    if as_int:
+        # whole-number profile built from python ints, as users (and test_directionality) write them
+        return ps.DiscreteFunc([int(v) for v in f["x"]], [int(v) for v in f["y"]], [int(v) for v in f["mp"]])
     return ps.DiscreteFunc(np.array(f["x"], dtype=float), np.array(f["y"], dtype=float), np.array(f["mp"], dtype=float))
 
 
@@ -56,7 +59,7 @@ class Prop(BaseProp):
     budget = {"quick": 2800, "thorough": 800000}
     must_see = ["tail:op1_tail_longer", "tail:op2_tail_longer", "tail:end_together", "both_operands_without_events",
                 "one_operand_without_events", "event_on_t_start", "event_on_t_end", "interval_end_on_event",
-                "interval_without_events", "interval_list", "plottable_k>0", "shared_event_time", "copy_op"]
+                "interval_without_events", "interval_list", "plottable_k>0", "shared_event_time", "copy_op", "integer_dtype_operand"]
     must_contracts = ["inv:DiscreteFunc"]
     arm_files = [("pyspike/DiscreteFunc.py", None),
                  ("pyspike/cython/python_backend.py", ["add_discrete_function_python"])]
@@ -84,7 +87,7 @@ class Prop(BaseProp):
                         ivs.append([a, b])
                     qs.append(["ivs", ivs])
                 else:
-                    qs.append(["plot", rng.choice([0, 1, 1, 2, 3])])
+                    qs.append(["plot", rng.choice([0, 1, 1, 2, 3, 5, 8, 13])])
             case["queries"] = qs
             yield case
 
@@ -92,7 +95,12 @@ class Prop(BaseProp):
         ps = ctx.ps
         ts, te = case["ts"], case["te"]
         fs = case["funcs"]
-        pool = [ctx.call(build, ps, f, _name="constructor") for f in fs]
+        def whole(f):
+            return all(float(v).is_integer() for k_ in ("x", "y", "mp") for v in f[k_])
+        ints = [whole(f) and (q % 2 == 0) for q, f in enumerate(fs)]
+        if any(ints):
+            ctx.count("integer_dtype_operand")
+        pool = [ctx.call(build, ps, f, ints[q], _name="constructor") for q, f in enumerate(fs)]
         mods = [ref.DISC(f["x"], f["y"], f["mp"]) for f in fs]
         ctx.word(([gen.word_of([f["x"][1:-1] for f in fs], ts, te)], case["ops"]), True)
         ctx.sample(case)
